@@ -420,6 +420,12 @@ pub fn run_history(rng: &mut Rng, cfg: &HistCfg, dir: &Path, tag: &str) -> HistR
             let k = rng.range(1, sim.max_fork_width);
             let mut order = actors.clone();
             rng.shuffle(&mut order);
+            // a non-admin that holds somebody's queued (leave) proposal commits more often than
+            // chance alone would have it: its self_update sweeps the proposal into a commit that
+            // every receiver refuses - refusals of authentic commits are what several monitors need
+            if sim.w_leave > 0 && rng.chance(50) {
+                order.sort_by_key(|m| !(w.clients[*m].queued_props.get(&g).map(|q| !q.is_empty()).unwrap_or(false) && !w.is_admin_now(*m, g)));
+            }
             let mut made: Vec<usize> = vec![];
             for &m in order.iter() {
                 if made.len() == k {
@@ -664,6 +670,17 @@ pub fn run_history(rng: &mut Rng, cfg: &HistCfg, dir: &Path, tag: &str) -> HistR
             }
             // every commit that took effect here, newest first (an applied commit that looks
             // "better than what is recorded for its epoch" would roll the group back)
+            // ... first of all the commits applied in a state in which this client had REFUSED another
+            // commit before (a refusal must leave no rollback bookkeeping behind that a later
+            // re-delivery could trip over)
+            let refused_at: Vec<StateKey> = w.clients[m].first_result.iter().filter(|(i, r)| w.log[**i].kind == PubKind::Commit && r.starts_with("Err(")).filter_map(|(i, _)| w.clients[m].first_offer_state.get(i).cloned().flatten()).collect();
+            let after_refusal: Vec<usize> = w.clients[m].transitions.iter().filter(|t| refused_at.contains(&t.0) && t.1 < usize::MAX / 2).map(|t| t.1).collect();
+            let non_admin_refusals = w.clients[m].first_result.values().filter(|r| r.contains("CommitFromNonAdmin")).count();
+            mon.add("c07_refusals_commit_from_non_admin", non_admin_refusals as u64);
+            for c in after_refusal.into_iter().take(4) {
+                mon.count("c07_probes_of_commits_applied_after_a_refused_commit");
+                redelivery_probe(&mut w, m, c, 1, &mut mon, "after-fixpoint-commit-applied-after-a-refusal");
+            }
             let commits: Vec<usize> = eff.iter().copied().filter(|i| w.log[*i].kind == PubKind::Commit).rev().take(8).collect();
             for c in commits {
                 redelivery_probe(&mut w, m, c, 1, &mut mon, "after-fixpoint-every-commit");
